@@ -435,3 +435,82 @@ def rule_top_addressing(rep: Report, repo: Repo, rule: str) -> None:
                       f"{r.kind} attaches through `{fld}`, not through the top of the class stack: with a hidden (flag off) class in "
                       f"between, the member lands in an enclosing documented class")
     rep.floor(rule, 6, "addressing rows")
+
+
+# ----------------------------------------------------------------------
+def _compares_arg_with_state(atom) -> bool:
+    """A comparison (== / != / in) between argument text and a term that is not a constant: 'this command is only valid if its
+    argument equals something the listener remembers'."""
+    from ..absint import is_const, show
+    if not (isinstance(atom, tuple) and atom and atom[0] == "cmp" and atom[1] in ("==", "!=", "in", "notin")):
+        return False
+    a, b = atom[2], atom[3]
+
+    def is_arg_text(t):
+        s = show(t)
+        return "getText()" in s and ("single_argument" in s or "compound_argument" in s)
+
+    def constantish(t):
+        if is_const(t):
+            return True
+        return isinstance(t, tuple) and t and t[0] in ("tuple", "list", "set") and all(is_const(x) for x in t[1:])
+    return (is_arg_text(a) and not constantish(b) and not is_arg_text(b)) or (is_arg_text(b) and not constantish(a) and not is_arg_text(a))
+
+
+def rule_rejections(rep: Report, repo: Repo, rule: str, kinds=None) -> None:
+    """A command is rejected (error logged / exception raised, no entry) only because of its own argument count, a keyword
+    without value, or because it stands outside the block it needs - never because its argument *text* differs from something the
+    listener remembers, and never because of the listener's bookkeeping."""
+    from ..absint import show
+    rep.rule(rule, "rows of the effect table that end in an error log or an exception are conditioned on the command's own "
+                   "argument count / keyword scan / 'no enclosing block' only: no comparison of argument text with remembered state")
+    lm = model(repo)
+    n = 0
+    for k in (kinds or lm.kinds()):
+        for ev in ("DOC", "UNDOC"):
+            for r in lm.rows(ev, k):
+                if not (r.error or "exc" in r.val or (r.outcome.exit and r.outcome.exit[0] == "raise")):
+                    continue
+                n += 1
+                bad = [a for a, v in r.outcome.conds if _compares_arg_with_state(a)]
+                rep.check(not bad, rule, WHERE, f"{ev} {k} rejection [{row_case(r)[:60]}]",
+                          f"a well-formed {k}() is rejected because its argument text is compared with remembered state "
+                          f"(`{show(bad[0])[:90] if bad else ''}`): the command and what follows it are documented wrongly or not at all",
+                          witness=f"{k}() whose class/test argument is spelled differently from the enclosing declaration")
+    rep.floor(rule, 5, "rejection rows")
+
+
+def rule_raise_census(rep: Report, repo: Repo, rule: str) -> None:
+    """Every `raise` of the listener (other than re-raising inside an except handler) is guarded by a condition on the current
+    command's arguments; a raise that depends on the listener's own stacks can reject a balanced file."""
+    import ast as _ast
+    from ..model import guards_of, norm, walk_no_nested
+    rep.rule(rule, "every raise statement in the listener class is guarded by a test on the current command's arguments and by no "
+                   "test on listener state; callbacks that exist today are the only ones that may raise")
+    lm = model(repo)
+    ci = repo.cls(lm.cls)
+    m = repo.module(ci.module)
+    state_attrs = {v for k, v in lm.roles.items() if isinstance(v, str) and not v.startswith("__")}
+    n = 0
+    for name, fn in ci.methods.items():
+        for node in walk_no_nested(fn):
+            if not isinstance(node, _ast.Raise):
+                continue
+            in_handler = False
+            q = m.parents.get(node)
+            while q is not None and q is not fn:
+                if isinstance(q, _ast.ExceptHandler):
+                    in_handler = True
+                q = m.parents.get(q)
+            if in_handler:
+                continue
+            n += 1
+            gs = guards_of(fn, node, m.parents)
+            texts = [norm(g.test) for g in gs]
+            on_state = [t for t in texts if any(("self." + a) in t for a in state_attrs)]
+            on_args = [t for t in texts if "param" in t or "single_argument" in t or "len(" in t or "args" in t]
+            rep.check(bool(on_args) and not on_state, rule, f"{ci.module}:{lm.cls}.{name}", norm(node)[:80],
+                      "this exception does not depend on the current command's arguments alone"
+                      + (f" (it tests listener state: `{on_state[0][:60]}`)" if on_state else "")
+                      + ": a file that CMake accepts can be rejected", witness="a balanced file with a documented function after ct_add_test()")
+    rep.ok(rule, f"{ci.module}:{lm.cls}", f"{n} raise statement(s) examined")
